@@ -111,6 +111,19 @@ THEOREMS = [
         "C02_attr_wide",
         "C02_outdup_subsumes",
         "C02_keeps_outdup",
+        # E8 (IR<10, a graph value named like an experimental entry): wfModel9 / normModel9
+        "C02_model_ir9",
+        "C02_model_ir9_wide",
+        "C02_model_ir9_outdup",
+        "C02_ir9_subsumes",
+        # stage G: dimensions and scalar attributes as typed fields (Model/SerdeScalar.lean, harness/c02_scalar.py)
+        "C02_dim_fields",
+        "C02_shape_fields",
+        "C02_attr_scalar_fields",
+        "C02_float32_widen_narrow",
+        "C02_float32_representable",
+        "C02_float32_rounding_partial",
+        "C02_utf8_roundtrip",
     )
 ]
 ASSUMPTIONS = [
@@ -141,8 +154,12 @@ ASSUMPTIONS = [
     "they are identical, outdup replaces the entries of a declared name by their union (type/shape/doc of the last, "
     "metadata united, later wins; C02_outdup_output), C02_outdup_deserialize* under WFproto (merge (outdup p)); the "
     "edge stream now also runs on stand-alone nodes and GRAPH(S) attributes.  "
-    "Still oracle (EXPECTED_NORMALISATIONS) + correspondence only: value_info naming an output nobody produces; "
-    "IR<10 models whose own graph values have names of the experimental form (E8)",
+    "E8 (IR<10, a value of the main graph named like the experimental entry 'domain::name/value' of a function "
+    "value; D320, /repo commit f0d2984): C02_model_ir9 / C02_model_ir9_wide / C02_model_ir9_outdup prove the round trip "
+    "WITHOUT the hypothesis 'no such name' (wfModel9, normModel9 with the reserved names; histograms wf9d[edge]=..., "
+    "wf9d[E8]=...), on the plain domain, in front of the fold and in front of canonD (there: no graph input and no "
+    "declared graph output of the experimental form).  "
+    "Still oracle (EXPECTED_NORMALISATIONS) + correspondence only: value_info naming an output nobody produces",
     "the hypotheses of the new theorems are evaluated by the driver on every case (wfw / wfx, thmw / thmx = statements "
     "of C02_*_wide / C02_*_canon, sub / subx = C02_wide_subsumes / C02_canon_subsumes, unread = C02_fold_unread* "
     "observed through serialize, fields = C02_tensor_fields; wfd / thmd / subd / unreadd = hypothesis and statement of "
@@ -151,8 +168,15 @@ ASSUMPTIONS = [
     "tensors: serTensorF = serialize_tensor_into written out per tensor class and per field (CopyFrom as Clear + "
     "MergeFrom with the presence convention unset == default) is compared with the real to_proto on every tensor "
     "case; C02_tensor_fields claims every field incl. the payload in the storage field it came in, for all three "
-    "classes.  Still by construction of the rendering, NOT theorems: dimension and scalar attribute round trips, "
-    "bytes payloads as opaque tokens; float32<->double conversion and UTF-8 decoding live in the trusted renderer",
+    "classes.  Stage G (harness/c02_scalar.py, Model/SerdeScalar.lean): dimensions and INT/FLOAT/STRING attributes as "
+    "typed fields - int64 ranges (out-of-range Python ints RAISE ValueError, never wrap), float32 bit patterns with the "
+    "widening/narrowing conversions (protobuf's C cast: round to nearest even, overflow to inf, NaNs quieted), bytes "
+    "with CPython's strict UTF-8 codec - are theorems (C02_dim_fields, C02_shape_fields, C02_attr_scalar_fields, "
+    "C02_float32_*, C02_utf8_roundtrip) compared with the real code on every run; the renderer of this file is itself "
+    "compared with the model's rendering there.  Still opaque tokens: bytes payloads of tensors (C04).  A FLOAT "
+    "attribute whose f is a SIGNALLING NaN comes back with the quiet bit set (protobuf's float getter; invisible to "
+    "r_attr, histogram scalar:renderer_cannot_see_snan); tie-breaking of the double->float32 narrowing below the least "
+    "normal float32 is compared (exhaustive scope), not proved (C02_float32_rounding_partial)",
     "unsupported constructs (outside the property's quantifier), observed on every run by the 'unsupported' stream "
     "(histogram only, never a failure): SPARSE_TENSOR(S) attributes and map types raise NotImplementedError; "
     "GraphProto.sparse_initializer, ModelProto.training_info and TypeProto.opaque_type are DROPPED SILENTLY by "
@@ -1566,6 +1590,8 @@ def edge(rng, kind, p):
                 if full not in {x.name for x in p.graph.value_info} or rng.random() < 0.5:
                     gen.vi(p.graph.value_info.add(), full, typed=True)
                 what.append("E8:ir9-graph-value-named-like-function-entry")
+                if rng.random() < 0.5:
+                    return p, what  # E8 alone (inside C02_model_ir9); otherwise combined with the families below
     for _ in range(rng.choice([1, 1, 2])):
         c = rng.randrange(8)
         g = rng.choice(gs) if gs else None
@@ -1573,7 +1599,8 @@ def edge(rng, kind, p):
             fs_vi = [f for f in fs if len(f.value_info)]
             if fs_vi:
                 f = rng.choice(fs_vi)
-                gen.vi(f.value_info.add(), rng.choice(list(f.value_info)).name)
+                nm = rng.choice(list(f.value_info)).name  # (before .add(): the new, still unnamed entry is not a candidate)
+                gen.vi(f.value_info.add(), nm)
                 what.append("E6:duplicate-function-value-info")
             continue
         if c == 0 and g is not None and g.input:
@@ -1750,6 +1777,21 @@ def run_cases(ctx: Ctx, cases):
                     if not out[flag]:
                         ctx.disagree(f"serde.{kind}: theorem instance false in the model: {thm}", rec,
                                      {"r": out["r"], "normd": out.get("normd")}, None)
+            if "wf9" in out:
+                # E8: C02_model_ir9 (wfModel9 = wfModel without "no graph value named like an experimental entry")
+                ctx.count(f"wf9[{stream}]={out['wf9']}")
+                ctx.count(f"wf9w[{stream}]={out['wf9w']}")
+                ctx.count(f"wf9d[{stream}]={out['wf9d']}")
+                if stream == "edge" and "E8:" in str(label):
+                    ctx.count(f"wf9d[E8]={out['wf9d']}")
+                if out["wf9d"] and not out["wfd"]:
+                    ctx.count(f"wf9d-only[{stream}:{kind}]")
+                for flag, thm in (("thm9", "C02_model_ir9: wfModel9 x but serialize(deserialize x) != normModel9 x"),
+                                  ("thm9w", "C02_model_ir9_wide: wfModel9 (fold x) but serialize(deserialize x) != normModel9 (fold x)"),
+                                  ("thm9d", "C02_model_ir9_outdup: wfModel9 (canonD x) but serialize(deserialize x) != normModel9 (canonD x)"),
+                                  ("sub9", "C02_ir9_subsumes: WFproto x but normModel9 x != norm x")):
+                    if not out[flag]:
+                        ctx.disagree(f"serde.{kind}: theorem instance false in the model: {thm}", rec, {"r": out["r"]}, None)
             if kind == "tensor":
                 if not out["fields"]:
                     ctx.disagree("serde.tensor: theorem instance false in the model: C02_tensor_fields", rec,
@@ -1902,10 +1944,19 @@ def run(ctx: Ctx) -> None:
     cases = [("model", m, "corpus", name) for name, m in corpus_models(ctx)]
     run_cases(ctx, cases)
     run_unsupported(ctx)
+    # stage G: the typed scalar level (last, so that it does not shift the random streams above)
+    from harness.c02_scalar import run_scalar
+
+    run_scalar(ctx)
 
 
 def replay(ctx: Ctx, obj: dict) -> None:
     case = obj.get("case") or {}
+    if isinstance(case, dict) and "op" in case and "proto_b64" not in case:
+        from harness.c02_scalar import replay_scalar
+
+        replay_scalar(ctx, case)
+        return
     if "proto_b64" not in case:
         ds = obj.get("correspondence_disagreements") or []
         cases = [d["case"] for d in ds if isinstance(d.get("case"), dict) and "proto_b64" in d["case"]]
